@@ -54,6 +54,20 @@ def render_member(m, rid):
     return {"jsonrpc": "2.0", "id": rid, "method": method, "params": params}
 
 
+def render_member_tm(m, rid):
+    """Tendermint RPC (JSON-RPC form) rendering of a member on the LAV1 spec."""
+    k, b = m["k"], m["b"]
+    if k == "bal":
+        method, params = "block", {"height": str(b) if b >= 0 else TAGS[b]}
+    elif k == "num":
+        method, params = "status", {}
+    elif k == "none":
+        method, params = "genesis", {}
+    else:
+        raise vlib.Infra("member kind %r has no tendermint rendering" % k)
+    return {"jsonrpc": "2.0", "id": rid, "method": method, "params": params}
+
+
 def perms_of(members):
     """every distinct order, as 1-based index sequences; the identity first."""
     n = len(members)
@@ -67,22 +81,24 @@ def perms_of(members):
     return res
 
 
-def _jobs(vectors):
+def _jobs(vectors, tm=False):
     jobs = []
+    rm = render_member_tm if tm else render_member
+    spec, iface, rule, conn = ("LAV1", "tendermintrpc", 127, "") if tm else ("ETH1", "jsonrpc", 0, "POST")
     for v in vectors:
         ms, latest = v["members"], v["latest"]
         perms = v.get("perms") or perms_of(ms)
         items = []
         for nopol in (False, True):
             for p in perms:
-                data = json.dumps([render_member(ms[i - 1], pos + 1) for pos, i in enumerate(p)])
-                items.append({"url": "", "data": data, "conn": "POST", "latest": latest, "nopol": nopol})
+                data = json.dumps([rm(ms[i - 1], pos + 1) for pos, i in enumerate(p)])
+                items.append({"url": "", "data": data, "conn": conn, "latest": latest, "nopol": nopol})
         for nopol in (False, True):
             for m in ms:
-                items.append({"url": "", "data": json.dumps(render_member(m, 1)), "conn": "POST",
+                items.append({"url": "", "data": json.dumps(rm(m, 1)), "conn": conn,
                               "latest": latest, "nopol": nopol})
         jobs.append({"in": {"members": ms, "latest": latest, "perms": perms},
-                     "spec": "ETH1", "iface": "jsonrpc", "rule": 0, "policy": ["archive"], "items": items})
+                     "spec": spec, "iface": iface, "rule": rule, "policy": ["archive"], "items": items})
     return jobs
 
 
@@ -95,28 +111,30 @@ def signature(kind, row, p):
     P = len(row["in"]["perms"])
     o = row["out"][p - 1] if p else {}
     has_na = any(m["b"] == -1 for m in ms)
+    # block 0 (genesis) is also the "unset" sentinel of the earliest block (F19d): own, narrow class
+    z = ":block0" if any(m["b"] == 0 for m in ms) else ""
     if kind == "cu":
         return "cu-not-sum"
     if kind == "orderlat":
-        return "order-dependent:latest"
+        return "order-dependent:latest" + z
     if kind == "orderearl":
-        return "order-dependent:earliest"
+        return "order-dependent:earliest" + z
     if kind == "orderarch":
-        return "order-dependent:archive"
+        return "order-dependent:archive" + z
     if kind == "low":
-        return "uncovered-low:na-absorbs" if (has_na and o.get("earl") == -1) else "uncovered-low"
+        return "uncovered-low:na-absorbs" if (has_na and o.get("earl") == -1) else "uncovered-low" + z
     if kind == "high":
-        return "uncovered-high"
+        return "uncovered-high" + z
     if kind == "mono":
-        return "archive-missing:na-absorbs" if (has_na and o.get("earl") == -1) else "archive-missing"
+        return "archive-missing:na-absorbs" if (has_na and o.get("earl") == -1) else "archive-missing" + z
     return kind
 
 
-def _record(ctx, vectors, tag):
+def _record(ctx, vectors, tag, tm=False):
     binp = _bin()
     jpath = os.path.join(ctx.work, tag + "_jobs.json")
     tpath = os.path.join(ctx.work, tag + "_trace.ndjson")
-    vlib.write_json(jpath, {"repo": vlib.REPO, "jobs": _jobs(vectors)})
+    vlib.write_json(jpath, {"repo": vlib.REPO, "jobs": _jobs(vectors, tm)})
     vlib.run_harness(binp, [jpath, tpath])
     rows = vlib.read_ndjson(tpath)
     if len(rows) != len(vectors):
@@ -124,7 +142,7 @@ def _record(ctx, vectors, tag):
     return rows, tpath
 
 
-def _check(ctx, rows, tpath, tag, match_cfg=None):
+def _check(ctx, rows, tpath, tag, match_cfg=None, tm=False):
     """TLC evaluates the property on the recorded lines -> (failures, drift_count)."""
     res = vlib.tlc_trace(ctx, "Trace_BatchBlocks", match_cfg or "Trace_BatchBlocks_fixed.cfg", tpath, tag=tag,
                          env={"VERIF_MATCH_MODEL": "1" if match_cfg else "0"}, timeout=1800)
@@ -141,7 +159,8 @@ def _check(ctx, rows, tpath, tag, match_cfg=None):
                 json.dumps(row["in"])[:300], json.dumps(bad[:1] or row["out"][-1])[:300]))
         vec = {"members": row["in"]["members"], "latest": row["in"]["latest"]}
         P = len(row["in"]["perms"])
-        fails.append({"kind": kind, "vector": vec, "perm": p, "sig": signature(kind, row, p),
+        fails.append({"kind": kind, "vector": vec, "perm": p, "tm": tm,
+                      "sig": signature(kind, row, p) + ("@tendermintrpc" if tm else ""),
                       "out": row["out"][p - 1], "first": row["out"][0],
                       "order": [row["in"]["members"][j - 1] for j in row["in"]["perms"][p - 1]],
                       "singles": row["out"][2 * P:2 * P + len(row["in"]["members"])]})
@@ -149,9 +168,9 @@ def _check(ctx, rows, tpath, tag, match_cfg=None):
     return fails, drift
 
 
-def _validate(ctx, vectors, tag):
-    rows, tpath = _record(ctx, vectors, tag)
-    fails, _ = _check(ctx, rows, tpath, tag)
+def _validate(ctx, vectors, tag, tm=False):
+    rows, tpath = _record(ctx, vectors, tag, tm)
+    fails, _ = _check(ctx, rows, tpath, tag, tm=tm)
     nb = sum(len(r["in"]["perms"]) for r in rows)
     ctx.cov["traces_validated_against_impl"] += len(rows)
     ctx.cov["real_batches_parsed"] = ctx.cov.get("real_batches_parsed", 0) + 2 * nb
@@ -178,6 +197,7 @@ def run(ctx):
     for cfg, what in () if ctx.quick else (("BatchBlocks_unseeded.cfg", "as-found fold (earliest not seeded, F19) / OrderIndependent"),
                       ("BatchBlocks_unseeded2.cfg", "as-found fold (earliest not seeded, F19) / CoversNoNA"),
                       ("BatchBlocks_taglatest.cfg", "seeded fold with the as-found latest callback (F19b) / OrderIndependent"),
+                      ("BatchBlocks_zero.cfg", "seeded fold, callbacks testing > 0 and 0 = unset (F19d) / OrderIndependent, CoversNoNA"),
                       ("BatchBlocks_na.cfg", "repaired fold / ArchiveMonotone including n/a members (F19c)")):
         r = vlib.tlc_mc(ctx, "BatchBlocks", cfg, timeout=600, tag=cfg[:-4])
         i = r["out"].find("Error: Invariant")
@@ -197,7 +217,6 @@ def run(ctx):
     ctx.sample(vectors[len(vectors) // 2])
     ctx.sample(json.dumps([render_member(m, i + 1) for i, m in enumerate(nontriv[0]["members"])]))
     ctx.assumptions += ["batches of at most %d members over the alphabet of specs/BatchBlocks_*.cfg" % ctx.pick(3, 4),
-                        "block 0 (genesis) is not in the alphabet: the code reserves earliest = 0 for 'unset'",
                         "JSON-RPC interface of the checked-in ETH1 spec, archive rule 127; CU compared on a parser without "
                         "policy (extension CU multiplier not applied)",
                         "a summarised latest that is a non-earliest tag (latest/pending/safe/finalized/n-a) is an open upper bound"]
@@ -209,33 +228,62 @@ def run(ctx):
     sub = rows[::ctx.pick(3, 11)]
     spath = os.path.join(ctx.work, "drift_trace.ndjson")
     vlib.write_ndjson(spath, sub)
-    for cfg in ("Trace_BatchBlocks_fixed.cfg", "Trace_BatchBlocks_seeded.cfg", "Trace_BatchBlocks_asfound.cfg"):
+    for cfg in ("Trace_BatchBlocks_fixed.cfg", "Trace_BatchBlocks_head.cfg", "Trace_BatchBlocks_seeded.cfg",
+                "Trace_BatchBlocks_asfound.cfg"):
         _, d = _check(ctx, sub, spath, "drift_" + cfg[18:-4], match_cfg=cfg)
         ctx.notes.append("model equality with %s on %d sampled lines: %d differing batch orders" % (cfg, len(sub), d))
         if d == 0:
             break
     else:
-        ctx.drift.append("real batch summaries equal none of the BatchBlocks variants (fixed / seeded / as-found)")
+        ctx.drift.append("real batch summaries equal none of the BatchBlocks variants (fixed / head / seeded / as-found)")
+    # ---- sibling loop: TendermintChainParser.ParseMsg (tendermintRPC.go), same model with Tendermint = TRUE ----
+    mct = vlib.tlc_mc(ctx, "BatchBlocks", ctx.pick("BatchBlocks_tmq.cfg", "BatchBlocks_tm.cfg"), timeout=900, tag="BatchBlocks_tm")
+    if mct["violated"]:
+        raise vlib.Infra("design-level: tendermint fold violates %s (see %s)" % (mct["violated"], mct["outfile"]))
+    ctx.add_mc("BatchBlocks tendermint fold, all batches x permutations", mct)
+    emt = vlib.tlc_emit(ctx, "BatchBlocks", ctx.pick("BatchBlocks_tmemitq.cfg", "BatchBlocks_tmemit.cfg"), timeout=900, tag="BatchBlocks_tmemit")
+    tvectors = [{"members": b["members"], "latest": b["latest"]} for b in emt["behaviours"]]
+    ctx.cov["evaluations"] += len(tvectors)
+    before = ctx.cov["real_batches_archive"]
+    tfails, trows, tnb = _validate(ctx, tvectors, "tmgrid", tm=True)
+    ctx.cov["tendermint_orders_parsed"] = tnb
+    if ctx.cov["real_batches_archive"] == before:
+        raise vlib.Infra("no tendermint batch was ever marked archive by the real parser (dead binding)")
+    tsub = trows[::ctx.pick(3, 11)]
+    tspath = os.path.join(ctx.work, "tmdrift_trace.ndjson")
+    vlib.write_ndjson(tspath, tsub)
+    _, d = _check(ctx, tsub, tspath, "tmdrift", match_cfg="Trace_BatchBlocks_tm.cfg", tm=True)
+    ctx.notes.append("tendermint: model equality with Trace_BatchBlocks_tm.cfg on %d sampled lines: %d differing batch orders" % (len(tsub), d))
+    if d:
+        ctx.drift.append("real tendermint batch summaries differ from BatchBlocks (Tendermint = TRUE) on %d orders" % d)
+    ctx.assumptions += ["tendermint pass: JSON-RPC form batches on the checked-in LAV1 spec (block / status / genesis), archive rule "
+                        "patched to 127, no eth_call members, no block 0 (tendermint heights start at 1)"]
+
     seen = {}
-    for f in fails:
+    for f in fails + tfails:
         seen.setdefault(f["sig"], []).append(f)
-    ctx.cov["failing_batch_orders"] = len(fails)
+    ctx.cov["failing_batch_orders"] = len(fails) + len(tfails)
     if not seen:
         return
     wit = {sig: min(fl, key=lambda f: (len(f["vector"]["members"]), f["perm"])) for sig, fl in seen.items()}
-    # one fresh driver + TLC run on the witnesses only
-    again, _, _ = _validate(ctx, [w["vector"] for w in wit.values()], "repro")
+    # one fresh driver + TLC run per interface on the witnesses only
+    again = []
+    for tm in (False, True):
+        ws = [w["vector"] for w in wit.values() if w["tm"] == tm]
+        if ws:
+            again += _validate(ctx, ws, "repro_tm" if tm else "repro", tm=tm)[0]
     for sig, w in sorted(wit.items()):
         if not [a for a in again if a["sig"] == sig and a["vector"] == w["vector"]]:
             raise vlib.Infra("counter-example not reproduced: %s %s" % (sig, json.dumps(w["vector"])))
-        ctx.violation(sig, _describe(w) + " (%d batch orders in this class)" % len(seen[sig]),
-                      {"vectors": [w["vector"]], "batch": [render_member(m, i + 1) for i, m in enumerate(w["order"])]})
+        rm = render_member_tm if w["tm"] else render_member
+        ctx.violation(sig, ("tendermintrpc " if w["tm"] else "") + _describe(w) + " (%d batch orders in this class)" % len(seen[sig]),
+                      {"vectors": [w["vector"]], "tm": w["tm"], "batch": [rm(m, i + 1) for i, m in enumerate(w["order"])]})
 
 
 def replay(ctx, path):
     with open(path) as f:
         obj = json.load(f)
-    fails, _, _ = _validate(ctx, obj["vectors"], "replay")
+    fails, _, _ = _validate(ctx, obj["vectors"], "replay", tm=bool(obj.get("tm")))
     done = set()
     for f in fails:
         if f["sig"] in done:
